@@ -186,4 +186,21 @@ DecodeMovie(img) ==
             mdats |-> SelectSeq(bs, LAMBDA x : x.t = MDAT),
             mvhd |-> DecMvhd(mb, Kid(ks, MVHD)),
             traks |-> traks, mb |-> mb, mk |-> mk ]
+-----------------------------------------------------------------------------
+(* Field map of a (small, fully materialised) image: the positions of the length / count /
+   version / offset words that steer the parser -- every box size field (and 64-bit size), and
+   the first words of every leaf payload (version+flags, entry counts, sample counts, sizes).
+   Used to generate structure-aware adversarial inputs (C06-C08): <<offset, width>> pairs. *)
+RECURSIVE NodeFields(_, _)
+NodeFields(b, k) ==
+  LET own == {<<k.o, 4>>} \cup (IF k.h = 16 THEN {<<k.o + 8, 8>>} ELSE {})
+      p == PrefixOf(k.t) IN
+  IF p >= 0 /\ k.s - k.h >= p
+  THEN LET ks == Kids(b, PayloadLo(k) + p, PayloadHi(k)) IN
+       own \cup {<<PayloadLo(k) + 4 * w, 4>> : w \in 0..((IF p > 8 THEN 8 ELSE p) \div 4 - 1)}
+           \cup UNION {NodeFields(b, ks.kids[i]) : i \in 1..Len(ks.kids)}
+  ELSE own \cup {<<PayloadLo(k) + 4 * w, 4>> : w \in 0..((IF k.s - k.h > 24 THEN 24 ELSE k.s - k.h) \div 4 - 1)}
+FieldMapOf(bytes) ==
+  LET ks == Kids(bytes, 0, Len(bytes)) IN
+  UNION {IF ks.kids[i].t = MDAT THEN {<<ks.kids[i].o, 4>>} ELSE NodeFields(bytes, ks.kids[i]) : i \in 1..Len(ks.kids)}
 =============================================================================
